@@ -26,7 +26,7 @@ func init() {
 		Rule: "scripts: ASCII logins at every stage (user in START or CONTINUE, right/wrong/empty password, abort at each step), PAP, other START combinations, command and session authorization, accounting start/stop/watchdog, malformed packets in the clear; interleavings: seeded random merges plus ALL interleavings of 2 scripts x <= 3 packets; concurrent connections reuse identical session ids. " +
 			"distinct_nontrivial = distinct interleaving hashes in which at least two sessions were open at once on one connection (also the coverage floor); classes = (mode, number of sessions, script kinds)",
 		Assumptions: []string{"replies of the reference server are deterministic functions of the session (messages mention only its own session id / user), so equality with the solo transcript is exact",
-			"quick tier: solo transcripts are taken on a second server instance with the same configuration, one connection per script; thorough tier additionally uses a fresh server per solo script for a sample"},
+			"solo transcripts are taken on a fresh server per script in half of the cases (4/5 in thorough) and on a second long-lived server instance in the others"},
 		MinClasses: func(tier string) int { return 40 },
 	})
 }
@@ -153,9 +153,12 @@ func runC09(b *mon.B) {
 		solo := make([]transcript, n)
 		for i := range recs {
 			remote++
+			// "the only session the server ever sees": a fresh server per solo script (every
+			// other case; the remaining cases share one solo server to keep a long-lived
+			// instance in the comparison as well)
 			ref := soloRef
 			var fresh *refsrv.Ref
-			if b.Thorough() && caseNo%25 == 0 {
+			if caseNo%2 == 0 || b.Thorough() && caseNo%5 != 0 {
 				if f, err := refsrv.Start(sc.Cfg, refsrv.Options{Keys: sc.Keys}); err == nil {
 					f.Net.SetKeepLog(false)
 					fresh, ref = f, f
